@@ -857,6 +857,104 @@ class _SysView(object):
 # driver
 # ---------------------------------------------------------------------------------------------
 
+def stdio_table(sc):
+    """dereferences  sys.stdout.X / sys.stderr.X / sys.stdin.X  in code that can run while an ioflo module is
+    imported: module and class bodies, plus (name based, transitive over-approximation) the bodies of every
+    function / class constructor whose NAME is called from such code.  Each entry: (module, line, guarded)
+    guarded = inside a try body that has handlers, inside an except handler (error path), or under an `if`
+    whose test mentions the same sys.std* object."""
+    funcs = {}       # name -> list of (module, FunctionDef)
+    for m, tree in sc.trees.items():
+        for n in ast.walk(tree):
+            if isinstance(n, (ast.FunctionDef, ast.AsyncFunctionDef)):
+                funcs.setdefault(n.name, []).append((m, n))
+            elif isinstance(n, ast.ClassDef):
+                for f in n.body:
+                    if isinstance(f, ast.FunctionDef) and f.name == "__init__":
+                        funcs.setdefault(n.name, []).append((m, f))
+
+    def called_names(nodes):
+        out = set()
+        for n in nodes:
+            if isinstance(n, ast.Call):
+                f = n.func
+                if isinstance(f, ast.Name):
+                    out.add(f.id)
+                elif isinstance(f, ast.Attribute):
+                    out.add(f.attr)
+        return out
+
+    def top_nodes(tree):
+        """nodes executed at import: everything except function bodies (defaults/decorators ignored here)"""
+        out, stack = [], list(tree.body)
+        while stack:
+            n = stack.pop()
+            if isinstance(n, (ast.FunctionDef, ast.AsyncFunctionDef, ast.Lambda)):
+                continue
+            out.append(n)
+            stack.extend(ast.iter_child_nodes(n))
+        return out
+
+    reach, todo = set(), set()
+    roots = []
+    for m, tree in sc.trees.items():
+        nodes = top_nodes(tree)
+        roots.append((m, tree))
+        todo |= called_names(nodes)
+    while todo:
+        nme = todo.pop()
+        if nme in reach or nme not in funcs:
+            continue
+        reach.add(nme)
+        for m, f in funcs[nme]:
+            todo |= called_names(ast.walk(f)) - reach
+
+    def derefs(m, root, skip_functions):
+        out = []
+
+        def visit(n, guarded):
+            if skip_functions and isinstance(n, (ast.FunctionDef, ast.AsyncFunctionDef, ast.Lambda)):
+                return
+            if isinstance(n, ast.Try):
+                for b in n.body:
+                    visit(b, guarded or bool(n.handlers))
+                for h in n.handlers:
+                    for b in h.body:
+                        visit(b, True)
+                for b in n.orelse + n.finalbody:
+                    visit(b, guarded)
+                return
+            if isinstance(n, ast.If):
+                src = ast.unparse(n.test)
+                if "__name__" in src and "__main__" in src:
+                    for b in n.orelse:
+                        visit(b, guarded)
+                    return                      # not executed on import
+                g = guarded or any(("sys.std" + k) in src for k in ("out", "err", "in"))
+                visit(n.test, guarded)
+                for b in n.body:
+                    visit(b, g)
+                for b in n.orelse:
+                    visit(b, guarded)
+                return
+            if isinstance(n, ast.Attribute) and isinstance(n.value, ast.Attribute) and isinstance(n.value.value, ast.Name) \
+                    and n.value.value.id == "sys" and n.value.attr in ("stdout", "stderr", "stdin"):
+                out.append((m, n.lineno, guarded))
+            for c in ast.iter_child_nodes(n):
+                visit(c, guarded)
+        for st in (root.body if hasattr(root, "body") else [root]):
+            visit(st, False)
+        return out
+
+    table = []
+    for m, tree in roots:
+        table += derefs(m, tree, True)
+    for nme in sorted(reach):
+        for m, f in funcs[nme]:
+            table += derefs(m, f, False)
+    return sorted(set(table))
+
+
 def extract(repo, env=None):
     """-> dict(modules=[internal names], events={name: [(kind, arg)]}, startup=[names], ext={...})"""
     if os.path.realpath(sys.executable) != os.path.realpath(PY):
@@ -922,7 +1020,7 @@ def extract(repo, env=None):
             if not sc.is_internal(y) and y not in ext_events:
                 ext_events[y] = [("import", x) for x in meas[y]["loaded"] if x in tracked and x != y] \
                     if y in meas and meas[y]["ok"] else []
-    return {"fn_uses": dict(p2.fn_uses), "fn_imports": dict(p2.fn_imports),
+    return {"stdio": stdio_table(sc), "fn_uses": dict(p2.fn_uses), "fn_imports": dict(p2.fn_imports),
             "pkg_bindings": pkg_bindings, "sub_files": sub_files,
             "modules": sorted(sc.mods), "events": events, "startup": [s for s in startup if s in tracked],
             "startup_all": startup, "ext": ext_events, "notes": p2.notes,
@@ -996,6 +1094,9 @@ def render(g, waived):
         "(%d, %d)" % (ids[m], ids[y]) for m in g["modules"] for y in g["fn_uses"].get(m, []) if y in ids))
     L.append("Definition fn_imports : list (N * N) := [%s]." % "; ".join(
         "(%d, %d)" % (ids[m], ids[y]) for m in g["modules"] for y in g["fn_imports"].get(m, []) if y in ids))
+    L.append("(* import-time reachable dereferences of sys.stdout / sys.stderr / sys.stdin: (module, line, guarded) *)")
+    L.append("Definition stdio_derefs : list (N * N * bool) := [%s]." % "; ".join(
+        "(%d, %d, %s)" % (ids[m], ln, "true" if gd else "false") for m, ln, gd in g["stdio"]))
     L.append("Definition fuel : nat := S (S (length all_modules + length ext_modules)).")
     L.append("")
     return "\n".join(L), ids
